@@ -27,7 +27,8 @@ Absent == [st |-> "absent", cfg |-> "none", prev |-> "none", shots |-> "none"]
 \* shots: "none" (never shot), "few", "many" - how much the instance was used since its last initialisation
 \* prev : whether the slot was initialised before its last reset with the same or with another configuration ("none" if never)
 
-EvStates == {"fresh", "used", "prefilled"}
+EvStates == {"fresh", "used", "prefilled", "tight"}
+\* tight: the object was replaced by a copy of itself - its storage holds exactly its content, the next append has to grow it
 
 Init ==
   /\ gen = [g \in Gens |-> Absent]
@@ -76,12 +77,18 @@ EventPrefill(e) ==
   /\ ev' = [ev EXCEPT ![e] = "prefilled"]
   /\ UNCHANGED <<gen, out>>
 
+\* the caller copies the event object (and goes on with the copy)
+EventCopy(e) ==
+  /\ ev[e] \in {"used", "prefilled"}
+  /\ ev' = [ev EXCEPT ![e] = "tight"]
+  /\ UNCHANGED <<gen, out>>
+
 Next ==
   \/ \E g \in Gens, c \in Cfgs : Create(g, c) \/ ResetReinit(g, c)
   \/ \E g \in Gens, e \in Evs, s \in Streams : Shoot(g, e, s)
   \/ \E g \in Gens, e \in Evs : ShootMany(g, e)
   \/ \E g \in Gens : Destroy(g)
-  \/ \E e \in Evs : EventReset(e) \/ EventPrefill(e)
+  \/ \E e \in Evs : EventReset(e) \/ EventPrefill(e) \/ EventCopy(e)
 
 Spec == Init /\ [][Next]_vars
 
